@@ -80,7 +80,9 @@ main() {
 uptodate () {
     (set -e
      DIR=$CURRENT
-     [ -d $NEXT ] && DIR=$NEXT
+     # Directory 'next' is left over after failed compile.
+     # But if it is left over from aborted run, it must be processed again.
+     [ -d $NEXT ] && [ -f $POLICYDB/failed ] && DIR=$NEXT
      [ -f "$DIR/src/.git/refs/heads/master" ] || return 1
      cd $DIR/src
      rev1=$(git rev-parse HEAD)
@@ -151,6 +153,11 @@ prepare_next() {
 
 # Compiled successfully.
 handle_success() {
+    # Remove 'failed' marker.
+    # Must be removed early, because directory 'next' would be taken
+    # as already processed, if this run is aborted.
+    rm -f $POLICYDB/failed
+
     # Update POLICY file of current version.
     cd $PSRC
     echo "# $POLICY # Current policy, don't edit manually!" > POLICY
@@ -170,9 +177,6 @@ handle_success() {
     rm -f $CURRENT;
     ln -s $POLICY $CURRENT
     echo "Updated current policy to '$POLICY'"
-
-    # Remove 'failed' marker.
-    rm -f failed
 
     # Cleanup previous code directory.
     # Remove huge and no longer used files from pass 1.
